@@ -24,7 +24,7 @@ Vocabulary (Proofs/FundGroup*.lean, namespace `DSymVerif.FGP`):
   `FWP.den`     the element of `FreeGroup ℕ` denoted by a letter list
 -/
 import Mathlib.GroupTheory.PresentedGroup
-import DSymVerif.Proofs.FundGroupGens
+import DSymVerif.Proofs.FundGroupRel
 import DSymVerif.Spec.C09
 
 namespace DSymVerif.C09
@@ -126,7 +126,52 @@ theorem relators_sorted (ds : DSymData) (f : FundGroup) (h : fundamentalGroup ds
 
 example : fundamentalGroup symB = .ok fgB := by decide +kernel
 
-/-! ## 5. the open obligation (◐): Tietze equivalence with the textbook presentation -/
+/-! ## 5. relators and cones are exactly the words traced around the 2-orbits -/
+
+/-- `Traced ds e2w i j d word degree` (Proofs/FundGroupRel.lean): `word` is what `trace_word` reads
+    around the `(i,j)`-orbit of `d` with the edge words `e2w`, and `degree = v_ij(d)`.
+
+    A word is a returned relator iff it is the relator representative of the non-trivial
+    `word ^ v` of some 2-orbit `(i, j, d)`, `i ≤ j ≤ dim`, `d` reported by `orbit_reps_2d(i, j)`
+    (for `i = j` these are the facet-pair words, in particular `g²` for mirrors). -/
+theorem relators_are_traced_words (ds : DSymData) (f : FundGroup)
+    (h : fundamentalGroup ds = .ok f) (w : List Int) :
+    w ∈ f.relators ↔
+      ∃ i j d word degree, i ≤ j ∧ j ≤ ds.dim ∧ d ∈ ds.view.orbitReps2d i j ∧
+        Traced ds f.edgeToWord i j d word degree ∧
+        FW.raisedTo word (degree : Int) ≠ [] ∧
+        w = FW.relatorRepresentative (FW.raisedTo word (degree : Int)) := by
+  rw [(fundamentalGroup_holds ds f h).1 w]
+  constructor
+  · rintro ⟨o, ho, word, degree, ht, hne, hw⟩
+    obtain ⟨hp, hd⟩ := mem_orbitList.1 ho
+    obtain ⟨hij, hj⟩ := mem_indexPairs.1 hp
+    exact ⟨o.1, o.2.1, o.2.2, word, degree, hij, hj, hd, ht, hne, hw⟩
+  · rintro ⟨i, j, d, word, degree, hij, hj, hd, ht, hne, hw⟩
+    exact ⟨(i, j, d), mem_orbitList.2 ⟨mem_indexPairs.2 ⟨hij, hj⟩, hd⟩, word, degree, ht, hne, hw⟩
+
+example : fundamentalGroup symB = .ok fgB := by decide +kernel
+
+/-- a pair is in the returned cone set iff it is (relator representative of the traced word,
+    branching number) of a 2-orbit with branching number > 1 -/
+theorem cones_are_traced_words (ds : DSymData) (f : FundGroup)
+    (h : fundamentalGroup ds = .ok f) (c : List Int × Nat) :
+    c ∈ f.cones ↔
+      ∃ i j d word degree, i ≤ j ∧ j ≤ ds.dim ∧ d ∈ ds.view.orbitReps2d i j ∧
+        Traced ds f.edgeToWord i j d word degree ∧ degree > 1 ∧
+        c = (FW.relatorRepresentative word, degree) := by
+  rw [(fundamentalGroup_holds ds f h).2 c]
+  constructor
+  · rintro ⟨o, ho, word, degree, ht, hd1, hw⟩
+    obtain ⟨hp, hd⟩ := mem_orbitList.1 ho
+    obtain ⟨hij, hj⟩ := mem_indexPairs.1 hp
+    exact ⟨o.1, o.2.1, o.2.2, word, degree, hij, hj, hd, ht, hd1, hw⟩
+  · rintro ⟨i, j, d, word, degree, hij, hj, hd, ht, hd1, hw⟩
+    exact ⟨(i, j, d), mem_orbitList.2 ⟨mem_indexPairs.2 ⟨hij, hj⟩, hd⟩, word, degree, ht, hd1, hw⟩
+
+example : fundamentalGroup symB = .ok fgB := by decide +kernel
+
+/-! ## 6. the open obligation (◐): Tietze equivalence with the textbook presentation -/
 
 /-- the group with generators `1..n` and the relator words `rels`
     (a quotient of `FreeGroup ℕ`: letters `0` and `> n` are killed) -/
